@@ -99,7 +99,7 @@ Definition call_step (rec : frame -> nat -> list str -> outcome * list binding)
   let f := fr_fn fr in
   match bind (f_params f) npos (f_kw f) kws with
   | (COk, kw, bs) =>
-      if length (f_params f) <? npos then (CTooMany, [])
+      if npos_cap f <? npos then (CTooMany, [])
       else if missing (f_params f) 0 npos kws then (CMissing, [])
       else let '(o, bs') := run_body rec cf (f_body f) kw in (o, bs ++ bs')
   | (o, _, _) => (o, [])
